@@ -158,7 +158,7 @@ fn gen_restart(rng: &mut Rng, rf: u8) -> String {
 /// of X gets no answer (its write waits in X's buffer: the coordinator's 10 s time-out) - at most `slow` such writes.
 fn gen_co(rng: &mut Rng, rf: u8, mut slow: u32) -> String {
     let n0x = rng.range(1, 3);
-    let mut rel = |rng: &mut Rng| -> u64 {
+    let rel = |rng: &mut Rng| -> u64 {
         match rng.below(7) {
             0..=2 => n0x,
             3 => n0x - 1,
@@ -175,7 +175,7 @@ fn gen_co(rng: &mut Rng, rf: u8, mut slow: u32) -> String {
     // the generator's idea of X (only to steer; the truth comes from the run)
     let mut xnext = n0x;
     let mut buf: std::collections::BTreeMap<u64, u64> = Default::default();
-    let mut apply = |xnext: &mut u64, buf: &mut std::collections::BTreeMap<u64, u64>, k: u64| {
+    let apply = |xnext: &mut u64, buf: &mut std::collections::BTreeMap<u64, u64>, k: u64| {
         *xnext += k;
         loop {
             buf.retain(|&s, _| s >= *xnext);
